@@ -91,6 +91,16 @@ theorem backup_restore_file_partial {σ : Type} (enc : Char → Bytes) (he : Enc
       = totalLen (Rustic.Props.C06.chunksOf r p bufSize input sched) from rfl, this]
   exact Rustic.Props.C06.lossless r p hp bufSize hb input sched
 
+/-- (2') … so a ranged read (`read_file_at`) of an archived file whose chunks read back by their ids returns exactly the
+requested range of the file's bytes (any offset, any length, also past the end) — with (8) the premise is a theorem. -/
+theorem ranged_read_of_stored_file (maxv : Nat) (hash : Bytes → Nat) (store : Nat → Option Bytes) (chunks : List Bytes)
+    (hs : StoreFaithful hash chunks store) (offset len : Nat) (hm : offset < maxv) :
+    ((chunks.map hash).mapM store).map (fun blobs => readAt maxv (blobs.map List.length) blobs offset len) =
+      some ((chunks.flatten.drop offset).take len) := by
+  rw [mapM_store _ hs]
+  simp only [Option.map_some]
+  rw [readAt_eq maxv chunks offset len hm]
+
 /-- (5') the store the archiver builds is faithful when distinct chunks have distinct ids -/
 theorem archive_store_faithful (hash : Bytes → Nat) (chunks : List Bytes) (store : Nat → Option Bytes)
     (hinj : ∀ a ∈ chunks, ∀ b ∈ chunks, hash a = hash b → a = b) :
@@ -250,6 +260,111 @@ theorem archive_restore (c : Cfg) (s : Str) (hs : StrOK s) (j : Ser) (chunks : R
     exact this
   · intro ch hc
     exact hread (BT.data, ch) (List.mem_append_right _ (List.mem_map.mpr ⟨ch, hc, rfl⟩))
+
+open Rustic.Store Rustic.Archive in
+/-- the repository a run leaves behind satisfies the restore invariant (used by (7) and (10)) -/
+theorem run_repoOK (c : Cfg) (blobs : List (BT × RoundTrip.Bytes)) (k : Conc) (evs : List Ev) (hr : RunOK c blobs k evs) :
+    RepoOK c (packsOf k (finalizeAll (runEvs Rustic.Props.C07.init evs)))
+      (indexedOf c k (finalizeAll (runEvs Rustic.Props.C07.init evs))) := by
+  have hkey : ∀ key ∈ entered evs, c.hash (k.content key) = key.2 ∧ ∃ b ∈ blobs, b.2 = k.content key := by
+    intro key hk
+    rw [hr.content]
+    exact contentOf_key c.hash blobs key ((hr.entered key).mp hk)
+  exact pipeline_repoOK c k evs hr.packId hr.nonce
+    (fun key hk => by
+      obtain ⟨_, b, hb, he⟩ := hkey key hk
+      exact Or.inl (he ▸ hr.nonempty b hb))
+    (fun key hk => (hkey key hk).1)
+
+open Rustic.Store Rustic.Archive Rustic.Snapshot Rustic.Tree in
+/-- (10) **… also into a repository that already holds data** (de-duplication against the global index).  `old` /
+`oldFiles`: any repository satisfying `RepoOK`; the archiver consults ANY index loaded from it (`idxOld`, any mode — backup
+uses `DataIds`) through `has_data` / `has_tree` and hands over only what it lacks; the new packs are added
+(`old ++ packsOf …`), the index files old and new are loaded together.  With collision-free pack ids and no hash collision
+between a plaintext already stored and another byte string, restoring the new snapshot yields exactly `src` — chunks and
+trees that were NOT uploaded because the index knew them are read from the old packs. -/
+theorem archive_restore_incremental (c : Cfg) (s : Str) (hs : StrOK s) (j : Ser) (chunks : RoundTrip.Bytes → List RoundTrip.Bytes)
+    (hch : ∀ d, (chunks d).flatten = d)
+    (src : List STree) (hwf : WFL src) (hwalk : WalkableL src)
+    (old : List BuiltPack) (oldFiles : List Rustic.Index.IndexFile)
+    (hold : RepoOK c old (Rustic.Index.unmarked oldFiles))
+    (m : Rustic.Index.IndexType) (idxOld : Rustic.Index.Index) (hlOld : Rustic.Props.C17.Loaded m oldFiles idxOld)
+    (o : Rustic.Parent.Opts) (load : Id → Option (List Node)) (a : ArchOut)
+    (ha : archive (fun nodes => c.hash (treeBytes s j nodes)) (fun d => (chunks d).map c.hash) List.length load
+      (idxOld.has .data) (idxOld.has .tree) o [] (treeItems (entriesL [] src)) = some a)
+    (k : Conc) (evs : List Ev)
+    (hr : RunOK c (a.treeAdds.map (fun t => (BT.tree, treeBytes s j t.2)) ++
+      ((saveL (fun nodes => c.hash (treeBytes s j nodes)) c.hash chunks (idxOld.has .tree) src).chunks.filter
+        (fun ch => !idxOld.has .data (c.hash ch))).map (fun ch => (BT.data, ch))) k evs)
+    (hids : ∀ q ∈ old, ∀ p, q.id ≠ k.packId p)
+    (hcoll : ∀ q ∈ old, ∀ x ∈ q.adds, ∀ y : RoundTrip.Bytes, c.hash x.data = c.hash y → x.data = y)
+    (files : List Rustic.Index.IndexFile)
+    (hfiles : ∀ p, p ∈ Rustic.Index.unmarked files ↔ p ∈ Rustic.Index.unmarked oldFiles ∨
+      p ∈ indexedOf c k (finalizeAll (runEvs Rustic.Props.C07.init evs)))
+    (idx : Rustic.Index.Index) (hl : Rustic.Props.C17.Loaded .full files idx)
+    (order : List Write → List Write) (ho : ∀ l w, w ∈ order l ↔ w ∈ l) :
+    restoreTrees s j
+      (readBlob c idx (backendGet c (old ++ packsOf k (finalizeAll (runEvs Rustic.Props.C07.init evs)))) .tree)
+      (readBlob c idx (backendGet c (old ++ packsOf k (finalizeAll (runEvs Rustic.Props.C07.init evs)))) .data)
+      order (depthL src + 1) a.root = some src := by
+  rw [tree_iterator_items src hwalk] at ha
+  obtain ⟨a', ha', hroot, htrees, _⟩ := archive_eq_save (fun nodes => c.hash (treeBytes s j nodes)) c.hash chunks load
+    (idxOld.has .data) (idxOld.has .tree) o src
+  rw [ha] at ha'
+  injection ha' with ha'
+  subst ha'
+  have hnew := run_repoOK c _ k evs hr
+  have hall : RepoOK c (old ++ packsOf k (finalizeAll (runEvs Rustic.Props.C07.init evs))) (Rustic.Index.unmarked files) := by
+    refine (RepoOK.append hold hnew ?_ ?_).of_mem_iff (fun p => by rw [hfiles p, List.mem_append])
+    · intro q hq q' hq'
+      obtain ⟨p, _, rfl⟩ := List.mem_map.mp hq'
+      exact hids q hq p
+    · intro q hq q' _ _ x hx x' _ hh
+      exact hcoll q hq x hx x'.data hh
+  -- what the run uploaded reads back from the new packs
+  have hreadNew : ∀ b ∈ (a.treeAdds.map (fun t => (BT.tree, treeBytes s j t.2)) ++
+      ((saveL (fun nodes => c.hash (treeBytes s j nodes)) c.hash chunks (idxOld.has .tree) src).chunks.filter
+        (fun ch => !idxOld.has .data (c.hash ch))).map (fun ch => (BT.data, ch))),
+      readBlob c idx (backendGet c (old ++ packsOf k (finalizeAll (runEvs Rustic.Props.C07.init evs))))
+        (toBlobType b.1) (c.hash b.2) = some b.2 := by
+    intro b hb
+    have hent : (b.1, c.hash b.2) ∈ entered evs := (hr.entered _).mpr (List.mem_map.mpr ⟨b, hb, rfl⟩)
+    obtain ⟨q, hq, hty, x, hx, hdata⟩ := entered_is_added k evs _ hent
+    have hcont : k.content (b.1, c.hash b.2) = b.2 := by rw [hr.content]; exact contentOf_spec c.hash _ hr.inj b hb
+    have := blob_read_back c _ files hall idx hl q (List.mem_append_right _ hq) x hx
+    rw [hdata, hcont, hty] at this
+    exact this
+  -- what the old index knew reads back from the old packs
+  have hreadOld : ∀ (t : Rustic.Pack.BlobType) (y : RoundTrip.Bytes), idxOld.has t (c.hash y) = true →
+      readBlob c idx (backendGet c (old ++ packsOf k (finalizeAll (runEvs Rustic.Props.C07.init evs)))) t (c.hash y) = some y := by
+    intro t y hh
+    obtain ⟨q, hq, hty, x, hx, hxh⟩ := has_is_added c old oldFiles hold m idxOld hlOld t (c.hash y) hh
+    have hxy := hcoll q hq x hx y hxh
+    have := blob_read_back c _ files hall idx hl q (List.mem_append_left _ hq) x hx
+    rw [hxy, hty] at this
+    exact this
+  rw [hroot]
+  refine restore_of_saved_gen s hs j (fun nodes => c.hash (treeBytes s j nodes)) c.hash chunks hch (idxOld.has .tree)
+    (readBlob c idx (backendGet c (old ++ packsOf k (finalizeAll (runEvs Rustic.Props.C07.init evs)))) .tree)
+    (readBlob c idx (backendGet c (old ++ packsOf k (finalizeAll (runEvs Rustic.Props.C07.init evs)))) .data)
+    order ho src hwf (fun nodes hh => hreadOld .tree _ hh) ?_ ?_ ?_
+  · by_cases hh : idxOld.has .tree (c.hash (treeBytes s j
+        (saveL (fun nodes => c.hash (treeBytes s j nodes)) c.hash chunks (idxOld.has .tree) src).nodes)) = true
+    · exact hreadOld .tree _ hh
+    · simp only [hh, Bool.false_eq_true, if_false] at htrees
+      exact hreadNew (BT.tree, _) (List.mem_append_left _ (List.mem_map.mpr ⟨(_, _), by
+        rw [htrees]; exact List.mem_append_right _ (List.mem_singleton.mpr rfl), rfl⟩))
+  · intro p hp
+    have hid := saveL_trees_id (fun nodes => c.hash (treeBytes s j nodes)) c.hash chunks (idxOld.has .tree) src p hp
+    have := hreadNew (BT.tree, treeBytes s j p.2) (List.mem_append_left _ (List.mem_map.mpr ⟨p, by
+      rw [htrees]; exact List.mem_append_left _ hp, rfl⟩))
+    rw [hid]
+    exact this
+  · intro ch hc
+    by_cases hh : idxOld.has .data (c.hash ch) = true
+    · exact hreadOld .data ch hh
+    · exact hreadNew (BT.data, ch) (List.mem_append_right _ (List.mem_map.mpr
+        ⟨ch, List.mem_filter.mpr ⟨hc, by simpa using hh⟩, rfl⟩))
 
 /-! non-vacuity -/
 
